@@ -98,3 +98,24 @@ def arbitrary(c, body):
     buf = refs.cat(head, c.bytes("body", body), c.bytes("status", 4))
     res = c.call(_epm.EptMapResult.unpack, buf)
     return len(res.towers)
+
+
+@harness(P, per_job=True, params=lambda tier: [dict(n=n, tcp=t, r=r) for n, t, r in ([(5, 4, 3), (6, 5, 0), (6, 4, 5), (8, 7, 2)] if tier == "quick" else
+                                                                                  [(n, t, r) for n in (5, 6, 8, 12) for t in (0, 4, n - 1) for r in (0, 3, 5)])], max_steps=400000,
+         bounds="replies with 5..8 (thorough ..12) towers - more than the client asked for - whose floors have a fixed non-TCP protocol (named pipe) and r-byte payloads, with the "
+         "only TCP floor (symbolic port) in a listed tower, possibly the last: the client returns that port", outside="other tower counts",
+         must_reach=("many towers: port of the only TCP tower",))
+def many_towers(c, n, tcp, r):
+    port = c.int("port", 0, 65535)
+    pb = V.SymBytes(list(V.seq_items(port.to_bytes(2, "big")))).norm() if not isinstance(port, int) else port.to_bytes(2, "big")
+    towers = []
+    for i in range(n):
+        floors = [refs.ref_floor(0x0F, b"", c.bytes(f"pipe{i}", r))]
+        if i == tcp:
+            floors.append(refs.ref_floor(7, b"", pb))
+        floors.append(refs.ref_floor(0x0D, UUID_LHS, b"\x00\x00"))
+        towers.append(refs.ref_tower(floors))
+    buf = refs.ref_ept_map_result(c.bytes("handle", 20), towers, 0)
+    got = c.call(_client._process_ept_map_result, types.SimpleNamespace(stub_data=buf))
+    c.check(got == port, "many towers: port of the only TCP tower")
+    return True
